@@ -1,3 +1,90 @@
-(** Properties/C16.v — placeholder until the partition theorems are in (Run/OuterProofs.v). *)
-From DarlingModel Require Import Run.Outer.
-Theorem C16_placeholder : True. Proof. exact I. Qed.
+(** Properties/C16.v — Magic fields and body conversion mirror the input element faithfully.
+    Statements only; for any element converters, any receivers, any user callables. *)
+From DarlingModel Require Import Run.Recv Run.Outer Run.OuterProofs.
+Local Open Scope string_scope.
+Local Open Scope list_scope.
+
+(** Converting a list of elements succeeds exactly when every element converts, and then keeps
+    one entry per element, in order. *)
+Theorem C16_elementwise_ok_iff_all_ok :
+  forall rs k v, accumulate rs k = Ok v <-> Forall (fun r => is_ok r = true) rs /\ v = k (oks rs).
+Proof. exact accumulate_ok. Qed.
+
+(** Otherwise it fails exactly when some element fails, and reports ALL failures in one bundle,
+    in order (leaf count = sum over the failing elements). *)
+Theorem C16_elementwise_reports_all :
+  forall rs k,
+    (forall e, accumulate rs k = Err e ->
+       errs_of rs <> [] /\ multiple (errs_of rs) = POk e /\ len e = sumN (map len (errs_of rs)))
+    /\ (first_panic rs = None ->
+        (is_err (accumulate rs k) = true <-> exists r, In r rs /\ is_err r = true)).
+Proof. exact (fun rs k => conj (accumulate_err rs k) (accumulate_fails_iff rs k)). Qed.
+
+Section C16.
+  Variable pf : bool -> string -> option N.
+  Variable reparse : grammar -> string -> option string.
+  Variable reparse_arr : string -> option expr.
+  Variable reparse_preds : string -> option (list string).
+  Variable sugg : bool.
+  Variable sim : string -> string -> N.
+  Variable interp_with : fnid -> nested -> res value.
+  Variable interp_fn : fnid -> value -> res value.
+  Variable interp_attrs : fnid -> list attribute -> res value.
+  Notation fields_try_from := (fields_try_from pf reparse reparse_arr reparse_preds sugg sim interp_with interp_fn interp_attrs).
+  Notation fields_results := (fields_results pf reparse reparse_arr reparse_preds sugg sim interp_with interp_fn interp_attrs).
+  Notation data_try_from := (data_try_from pf reparse reparse_arr reparse_preds sugg sim interp_with interp_fn interp_attrs).
+  Notation from_variant := (from_variant pf reparse reparse_arr reparse_preds sugg sim interp_with interp_fn interp_attrs).
+  Notation from_field := (from_field pf reparse reparse_arr reparse_preds sugg sim interp_with interp_fn interp_attrs).
+
+  (** `fields`: the input's style, exactly one converted entry per input field, in source order. *)
+  Theorem C16_fields_same_style_count_order :
+    forall fc style fs v,
+      fields_try_from fc style fs = Ok v ->
+      exists vals, v = fields_value style vals
+                   /\ List.length vals = List.length fs
+                   /\ map Some vals = map val_of (fields_results fc style fs).
+  Proof. exact (fields_try_from_ok pf reparse reparse_arr reparse_preds sugg sim interp_with interp_fn interp_attrs). Qed.
+
+  (** `data`: the input body's kind; a union is an error. *)
+  Theorem C16_data_same_kind :
+    forall vc fc,
+      data_try_from vc fc DUnion = Err (custom "Unions are not supported")
+      /\ (forall vs v, data_try_from vc fc (DEnum vs) = Ok v ->
+            exists vals, v = VVariant "Enum" [("0", VList vals)]
+                         /\ List.length vals = List.length vs
+                         /\ map Some vals = map val_of (map (from_variant vc) vs))
+      /\ (forall style fs v, data_try_from vc fc (DStruct style fs) = Ok v ->
+            exists vals, v = VVariant "Struct" [("0", fields_value style vals)]
+                         /\ List.length vals = List.length fs).
+  Proof.
+    exact (fun vc fc =>
+             conj (data_try_from_union pf reparse reparse_arr reparse_preds sugg sim interp_with interp_fn interp_attrs vc fc)
+               (conj (data_try_from_enum_ok pf reparse reparse_arr reparse_preds sugg sim interp_with interp_fn interp_attrs vc fc)
+                     (data_try_from_struct_ok pf reparse reparse_arr reparse_preds sugg sim interp_with interp_fn interp_attrs vc fc))).
+  Qed.
+
+  (** The magic members of a field receiver are exactly the field's identifier, visibility and
+      type, in that order before everything else. *)
+  Theorem C16_field_members_are_projections :
+    forall b pass fe v,
+      from_field (FcRecv b pass) fe = Ok v -> ci_post (ob_c b) = None -> forallb field_member pass = true ->
+      exists tail, v = VStruct (map (fun m => (m, field_part fe m)) pass ++ tail).
+  Proof. exact (field_members_are_projections pf reparse reparse_arr reparse_preds sugg sim interp_with interp_fn interp_attrs). Qed.
+
+  (** The built-in element targets are projections too. *)
+  Theorem C16_builtin_field_targets :
+    forall fe,
+      from_field FcField fe = Ok (VToks (i_toks (fe_info fe)))
+      /\ from_field FcType fe = Ok (VToks (fe_ty fe))
+      /\ from_field FcVis fe = Ok (VToks (fe_vis fe))
+      /\ from_field FcAttrs fe = Ok (VList (map attr_toks (fe_attrs fe)))
+      /\ from_field FcUnit fe = Ok VUnit.
+  Proof. intros fe. repeat split. Qed.
+End C16.
+
+Print Assumptions C16_elementwise_ok_iff_all_ok.
+Print Assumptions C16_elementwise_reports_all.
+Print Assumptions C16_fields_same_style_count_order.
+Print Assumptions C16_data_same_kind.
+Print Assumptions C16_field_members_are_projections.
+Print Assumptions C16_builtin_field_targets.
